@@ -19,6 +19,7 @@ type family struct {
 	Mode  string // "G": GoGitRepo replica + second replica + mockRepo; "M": mockRepo only
 	Batch int
 	Gen   func(emit func(Spec))
+	Raw   func(emit func(string)) // families whose cases are not crafted histories (mode "S")
 }
 
 func fullFamily(nmax int, patterns []int) func(emit func(Spec)) {
@@ -53,23 +54,26 @@ func perturbFamily(nmin, nmax int, basePatterns, pertPatterns []int) func(emit f
 
 func plan(tier string) []family {
 	all := []int{0, 1, 2, 3}
-	spell := family{"clock spelling alphabet: every spelling of an edit-clock / create-clock / version entry on one of two concurrent commits, on a parent or a child, on the root", "G", 96, SpellingFamily}
+	staging := family{Name: "staging areas with several authors committed by one Entity.Commit: author patterns over {A,B} of length <= 4 (A,B,A / A,B,A,B / A,A,B,A ...), as first commit, as a later commit, and two in a row; read-back order against append order", Mode: "S", Batch: 16, Raw: StagingCases}
+	spell := family{Name: "clock spelling alphabet: every spelling of an edit-clock / create-clock / version entry on one of two concurrent commits, on a parent or a child, on the root", Mode: "G", Batch: 96, Gen: SpellingFamily}
 	if tier != "thorough" {
 		return []family{
+			staging,
 			spell,
-			{"valid histories and single perturbations, N<=4 commits, all content patterns", "G", 96, perturbFamily(1, 4, all, all)},
-			{"full cross product of clock options, N<=4 commits, all content patterns (mockRepo)", "M", 512, fullFamily(4, all)},
-			{"valid histories and single perturbations, N=5 commits, all content patterns (mockRepo)", "M", 512, perturbFamily(5, 5, all, all)},
-			{"valid histories (content patterns 0, 1) and single perturbations (pattern 1), N=5 commits", "G", 96, perturbFamily(5, 5, []int{0, 1}, []int{1})},
+			{Name: "valid histories and single perturbations, N<=4 commits, all content patterns", Mode: "G", Batch: 96, Gen: perturbFamily(1, 4, all, all)},
+			{Name: "full cross product of clock options, N<=4 commits, all content patterns (mockRepo)", Mode: "M", Batch: 512, Gen: fullFamily(4, all)},
+			{Name: "valid histories and single perturbations, N=5 commits, all content patterns (mockRepo)", Mode: "M", Batch: 512, Gen: perturbFamily(5, 5, all, all)},
+			{Name: "valid histories (content patterns 0, 1) and single perturbations (pattern 1), N=5 commits", Mode: "G", Batch: 96, Gen: perturbFamily(5, 5, []int{0, 1}, []int{1})},
 		}
 	}
 	return []family{
+		staging,
 		spell,
-		{"valid histories and single perturbations, N<=5 commits, all content patterns", "G", 96, perturbFamily(1, 5, all, all)},
-		{"full cross product of clock options, N<=4 commits, content patterns 2 and 3 (mockRepo)", "M", 512, fullFamily(4, []int{2, 3})},
-		{"valid histories (content patterns 0, 1) and single perturbations (pattern 1), N=6 commits (mockRepo)", "M", 512, perturbFamily(6, 6, []int{0, 1}, []int{1})},
-		{"full cross product of clock options, N<=4 commits, content patterns 0 and 1", "G", 96, fullFamily(4, []int{0, 1})},
-		{"full cross product of clock options, N=5 commits, content patterns 0 and 1 (mockRepo)", "M", 512, func(emit func(Spec)) {
+		{Name: "valid histories and single perturbations, N<=5 commits, all content patterns", Mode: "G", Batch: 96, Gen: perturbFamily(1, 5, all, all)},
+		{Name: "full cross product of clock options, N<=4 commits, content patterns 2 and 3 (mockRepo)", Mode: "M", Batch: 512, Gen: fullFamily(4, []int{2, 3})},
+		{Name: "valid histories (content patterns 0, 1) and single perturbations (pattern 1), N=6 commits (mockRepo)", Mode: "M", Batch: 512, Gen: perturbFamily(6, 6, []int{0, 1}, []int{1})},
+		{Name: "full cross product of clock options, N<=4 commits, content patterns 0 and 1", Mode: "G", Batch: 96, Gen: fullFamily(4, []int{0, 1})},
+		{Name: "full cross product of clock options, N=5 commits, content patterns 0 and 1 (mockRepo)", Mode: "M", Batch: 512, Gen: func(emit func(Spec)) {
 			for _, sh := range Shapes(5) {
 				Full(sh, []int{0, 1}, emit)
 			}
@@ -213,13 +217,21 @@ func Run(tier string, seed uint64, rep *evidence.Reporter, deadline time.Time) (
 		if fam.Mode == "G" {
 			chunk = 256
 		}
-		fam.Gen(func(s Spec) {
+		gen := fam.Raw
+		if gen == nil {
+			gen = func(emit func(string)) {
+				fam.Gen(func(s Spec) {
+					s[0].K = len(cur) // distinct root (hence distinct bug id) for every history of a batch
+					emit(s.String())
+				})
+			}
+		}
+		gen(func(token string) {
 			if stopped || failed {
 				skipped++
 				return
 			}
-			s[0].K = len(cur) // distinct root (hence distinct bug id) for every history of a batch
-			cur = append(cur, s.String())
+			cur = append(cur, token)
 			n++
 			if len(cur) == fam.Batch {
 				flush()
@@ -251,7 +263,7 @@ func Run(tier string, seed uint64, rep *evidence.Reporter, deadline time.Time) (
 		}
 		fmt.Fprintf(os.Stderr, "== C03B: %s: %d histories in %d batches, %.1fs (not run: %d)\n", fam.Name, done, batches, time.Since(t0).Seconds(), skipped)
 		total += done
-		info := map[string]any{"family": fam.Name, "backend": map[string]string{"G": "GoGitRepo (2 replicas) + mockRepo", "M": "mockRepo"}[fam.Mode],
+		info := map[string]any{"family": fam.Name, "backend": map[string]string{"G": "GoGitRepo (2 replicas) + mockRepo", "M": "mockRepo", "S": "GoGitRepo (2 replicas) + mockRepo, through Entity.Commit"}[fam.Mode],
 			"histories": done, "batches": batches, "wall_s": time.Since(t0).Seconds(),
 			"valid": famCounts["class valid"], "ordered": famCounts["ordered"]}
 		if skipped > 0 {
